@@ -7,6 +7,7 @@ import (
 	"strings"
 	"testing"
 
+	"github.com/maruel/panicparse/v2/internal/verifx/gen"
 	"github.com/maruel/panicparse/v2/internal/verifx/h"
 	"github.com/maruel/panicparse/v2/internal/verifx/rline"
 )
@@ -154,6 +155,10 @@ func TestVerifC07(t *testing.T) {
 		replayTrace(t, rv, "C07")
 		return
 	}
+	if envPart() == "streams" {
+		runStreamProduct(t, r, "C07")
+		return
+	}
 	runLineSearch(t, r, "C07", true)
 }
 
@@ -166,5 +171,41 @@ func TestVerifC02(t *testing.T) {
 		replayTrace(t, rv, "C02")
 		return
 	}
+	if envPart() == "streams" {
+		runStreamProduct(t, r, "C02")
+		return
+	}
 	runLineSearch(t, r, "C02", false)
+}
+
+// runStreamProduct is the G-stream part of C02/C07: the product J0 D1 J1 D2 J2 of
+// labelled junk and dump pieces, validated through the public API against the model.
+func runStreamProduct(t *testing.T, r *h.Run, view string) {
+	n := 0
+	gen.ForEachStream(r.Thorough(), func(seq int, name string, lines []rline.Line) {
+		n++
+		if !r.MineIdx(seq) || r.Expired() {
+			return
+		}
+		key := "stream: " + name
+		v := r.Check(func() *h.Viol {
+			vv := checkTrace(lines, view)
+			if vv != nil {
+				vv.Key = key
+			}
+			return vv
+		})
+		out := "ok"
+		if v != nil {
+			out = v.Fingerprint
+		}
+		r.Record(key, true, out)
+		r.Add("traces_validated_against_impl", 1)
+		if seq%20011 == 0 {
+			r.Sample(map[string]any{"stream_pieces": name})
+		}
+	})
+	if r.Shard == 0 {
+		r.Add("product_streams", n)
+	}
 }
